@@ -255,6 +255,42 @@ Definition lin_bq (k : lossk) (m : linmodel) (b : list elem) : vec :=
 Definition lin_bq_eval (k : lossk) (m : linmodel) (b : list elem) : vec :=
   [loss_eval k (length (lb m)) (lin_preds m b)].
 
+(* the same two loops for ANY model, given at fixed parameters as the pair
+     geval : input -> prediction                      (AbstractModel::eval on one input)
+     gwpd  : batch of (input, coefficient row) -> vec  (AbstractModel::weightedParameterDerivative)
+   ErrorFunctionImpl only uses the model through these two calls. *)
+Section GenModel.
+Variables (geval : vec -> vec) (gwpd : list (vec * vec) -> vec) (dim : nat).
+Definition gen_preds (b : list elem) : list (lab * vec) := map (fun e => (snd e, geval (fst e))) b.
+Definition gen_bq (k : lossk) (b : list elem) : vec :=
+  let r := loss_evald k dim (gen_preds b) in
+  fst r :: gwpd (combine (map fst b) (snd r)).
+Definition gen_bq_eval (k : lossk) (b : list elem) : vec := [loss_eval k dim (gen_preds b)].
+End GenModel.
+
+(* two LinearModels with offset and linear activation concatenated (ConcatenatedModel, `l1 >> l2`):
+   non-linear (bilinear) in the parameters.  Parameter vector = parameters of l1, then of l2.
+   weightedParameterDerivative: l2's derivative at the hidden activation, the coefficients are
+   propagated through l2 (weightedInputDerivative = W2^T g) and fed to l1. *)
+Record net2 := { n1 : linmodel; n2 : linmodel }.
+Definition net2_eval (m : net2) (x : vec) : vec := lin_eval (n2 m) (lin_eval (n1 m) x).
+(* W^T g, accumulated row by row from `nin` zeros *)
+Definition lin_wid (nin : nat) (m : linmodel) (g : vec) : vec :=
+  fold_left vadd (map2 (fun row gj => vscale gj row) (lW m) g) (repeat 0 nin).
+Definition net2_wpd1 (m : net2) (x g : vec) : vec :=
+  let h := lin_eval (n1 m) x in
+  lin_wpd1 x (lin_wid (length h) (n2 m) g) ++ lin_wpd1 h g.
+Definition net2_wpd (m : net2) (xg : list (vec * vec)) : vec :=
+  vsum (map (fun e => net2_wpd1 m (fst e) (snd e)) xg).
+Definition net2_bq (k : lossk) (m : net2) : list elem -> vec :=
+  gen_bq (net2_eval m) (net2_wpd m) (length (lb (n2 m))) k.
+Definition net2_bq_eval (k : lossk) (m : net2) : list elem -> vec :=
+  gen_bq_eval (net2_eval m) (length (lb (n2 m))) k.
+Definition net2_ef_eval (k : lossk) (m : net2) (threads : nat) (d : @data elem) : vec :=
+  errfn (net2_bq_eval k m) threads d.
+Definition net2_ef_evald (k : lossk) (m : net2) (threads : nat) (d : @data elem) : vec :=
+  errfn (net2_bq k m) threads d.
+
 Definition ef_eval (k : lossk) (m : linmodel) (threads : nat) (d : @data elem) : vec :=
   errfn (lin_bq_eval k m) threads d.
 Definition ef_evald (k : lossk) (m : linmodel) (threads : nat) (d : @data elem) : vec :=
@@ -324,4 +360,56 @@ Definition ce_evald (c : nat) (p : list A) : A * list A :=
     let nrm := asum g in
     let g1 := map (fun x => div x nrm) g in
     (add (sub (logA nrm) (nth c p zero)) mx, upd c (sub (nth c g1 zero) one) g1).
+
+(* the batch entry points of CrossEntropy<unsigned int, RealVector>: a loop `error += ...` over the rows *)
+Definition ce_batch_eval (b : list (nat * list A)) : A :=
+  asum (map (fun e => ce_eval (fst e) (snd e)) b).
+Definition ce_batch_evald (b : list (nat * list A)) : A * list (list A) :=
+  (asum (map (fun e => fst (ce_evald (fst e) (snd e))) b), map (fun e => snd (ce_evald (fst e) (snd e))) b).
+
+(* CrossEntropy<RealVector, RealVector> (probability-vector labels), batch code as written:
+     maximum = max(as_rows(prediction)); norm = sum(as_rows(exp(prediction - maximum)));
+     error = sum(log(norm)) - sum(target * prediction) + sum(maximum);
+     gradient = exp(prediction - maximum) / norm - target
+   a batch is a list of (target row, prediction row) *)
+Fixpoint amap2 (f : A -> A -> A) (a b : list A) : list A :=
+  match a, b with x :: a', y :: b' => f x y :: amap2 f a' b' | _, _ => [] end.
+Definition cev_shift (p : list A) : list A := let mx := amax p zero in map (fun x => expA (sub x mx)) p.
+Definition cev_eval (b : list (list A * list A)) : A :=
+  add (sub (asum (map (fun e => logA (asum (cev_shift (snd e)))) b))
+           (asum (concat (map (fun e => amap2 mul (fst e) (snd e)) b))))
+      (asum (map (fun e => amax (snd e) zero) b)).
+Definition cev_evald (b : list (list A * list A)) : A * list (list A) :=
+  (cev_eval b,
+   map (fun e => let g := cev_shift (snd e) in let nrm := asum g in
+                 amap2 sub (map (fun x => div x nrm) g) (fst e)) b).
+
+(* HuberLoss and AbsoluteLoss over the abstract carrier with a square root (the Q instance with qsqrt is
+   huber_s / huber_g / abs_eval above; the driver also instantiates with OCaml floats) *)
+Variable sqrtA : A -> A.
+Fixpoint asub (a b : list A) : list A :=
+  match a, b with x :: a', y :: b' => sub x y :: asub a' b' | _, _ => [] end.
+Fixpoint adot (a b : list A) : A :=
+  match a, b with x :: a', y :: b' => add (mul x y) (adot a' b') | _, _ => zero end.
+Definition anormsq (v : list A) : A := adot v v.
+Definition ahalf : A := div one (add one one).
+Definition huberA_s (delta : A) (l p : list A) : A :=
+  let n2 := anormsq (asub p l) in
+  if ltb (mul delta delta) n2 then sub (mul delta (sqrtA n2)) (mul ahalf (mul delta delta)) else mul ahalf n2.
+Definition huberA_g (delta : A) (l p : list A) : list A :=
+  let n2 := anormsq (asub p l) in
+  if ltb (mul delta delta) n2 then map (mul (div delta (sqrtA n2))) (asub p l) else asub p l.
+Definition huberA_eval (delta : A) (b : list (list A * list A)) : A :=
+  asum (map (fun e => huberA_s delta (fst e) (snd e)) b).
+Definition huberA_evald (delta : A) (b : list (list A * list A)) : A * list (list A) :=
+  (asum (map (fun e => huberA_s delta (fst e) (snd e)) b), map (fun e => huberA_g delta (fst e) (snd e)) b).
+Definition absA_single (l p : list A) : A := sqrtA (anormsq (asub p l)).
+Definition absA_eval (b : list (list A * list A)) : A := asum (map (fun e => absA_single (fst e) (snd e)) b).
 End CE.
+
+(* ------------------------------------------------------------------------------------------ *)
+(* ZeroOneLoss<unsigned int, RealVector>::eval(Data targets, Data predictions, RealVector weights):
+   a running element index over all batches, error += weights(element) * evalSingle(...), divided by
+   sum(weights).  The weight vector has one entry per element, in element order over all batches. *)
+Definition zow_eval (thr : Q) (d : @data (nat * vec)) (w : vec) : Q :=
+  qsum (map (fun ew => snd ew * zov_single thr (fst (fst ew)) (snd (fst ew))) (combine (elems d) w)) / qsum w.
